@@ -245,7 +245,9 @@ impl SyntaxPattern {
                         &DatumBody::Symbol(datum_symbol) if datum_symbol == pattern_symbol )
                 }
             }
-            (SyntaxPatternBody::Primitive(_), DatumBody::Primitive(_)) => true,
+            (SyntaxPatternBody::Primitive(pattern_primitive), DatumBody::Primitive(datum_primitive)) => {
+                pattern_primitive == datum_primitive
+            }
             _ => false,
         };
 
